@@ -55,8 +55,38 @@ func init() {
 	register(&Scenario{
 		Name:  "basic",
 		Knobs: SpecKnobs{AllForksInside: true},
-		Rates: OpRates{Exit: 10, PSlash: 5, ASlash: 5, BLSChange: 20, Deposit: 10},
-		Init:  func(c *Chain) { c.SpareShare = 80 },
+		Gen:   GenesisKnobs{MinVals: 48, MaxVals: 96, Eth1Share: 30, AboveShare: 12, BelowShare: 8},
+		Rates: OpRates{Exit: 8, PSlash: 4, ASlash: 4, BLSChange: 20, Deposit: 10},
+		Init:  func(c *Chain) { c.SpareShare = 65 },
+		BeforeBlock: func(c *Chain, p *ProposeCtx) {
+			// every operation kind at least once in every fork: add what this fork has not seen yet
+			f := p.Fork.String()
+			n := len(p.Flats)
+			try := func(op string, add func(v common.ValidatorIndex) bool) {
+				if c.Stats.Get(f+"."+op) > 0 {
+					return
+				}
+				for t := 0; t < 30; t++ {
+					if add(common.ValidatorIndex(c.Rng.Intn(n))) {
+						return
+					}
+				}
+			}
+			try("exit", p.AddExit)
+			try("pslash", p.AddProposerSlashing)
+			try("aslash", func(v common.ValidatorIndex) bool {
+				return p.AddAttesterSlashing([]common.ValidatorIndex{v}, c.Rng.Bool())
+			})
+			if p.Fork >= Capella {
+				try("blschange", p.AddBLSChange)
+			}
+			if c.Stats.Get(f+".deposit") == 0 && c.Vars["dep_"+f] == 0 {
+				c.Vars["dep_"+f] = 1
+				c.NewDepositor(c.Spec.MAX_EFFECTIVE_BALANCE, c.Rng.Chance(40))
+				c.TopUp(common.ValidatorIndex(c.Rng.Intn(len(c.Vals))), c.Spec.MIN_DEPOSIT_AMOUNT)
+				c.Stats.Add("deposits_queued", 2)
+			}
+		},
 		Mode: func(c *Chain, e common.Epoch) string {
 			if c.Rng.Chance(65) {
 				return "full"
@@ -79,12 +109,16 @@ func init() {
 		Gen:   GenesisKnobs{MinVals: 24, MaxVals: 64, AllMax: true, Eth1Share: 40},
 		Rates: OpRates{BLSChange: 5},
 		Init: func(c *Chain) {
-			// a quarter of the validators will stop attesting after the exits are queued
+			// n/4+3 validators never attest (nor sign sync messages): with the large base reward their effective balance drops
+			// below the ejection balance at the end of epoch 1 and they are ejected together at the end of epoch 2 — behind
+			// the voluntary exits queued at epoch SHARD_COMMITTEE_PERIOD (1 or 2)
 			n := len(c.Vals)
 			for i := 0; i < n/4+3; i++ {
-				c.Vars[fmt.Sprintf("lazy%d", c.Rng.Intn(n))] = 1
+				v := c.Rng.Intn(n)
+				c.Vars[fmt.Sprintf("lazy%d", v)] = 1
+				c.Absent[common.ValidatorIndex(v)] = true
 			}
-			c.Vars["exit_epoch"] = int(c.Spec.SHARD_COMMITTEE_PERIOD) + c.Rng.Intn(2)
+			c.Vars["exit_epoch"] = int(c.Spec.SHARD_COMMITTEE_PERIOD)
 		},
 		Mode: func(c *Chain, e common.Epoch) string { return "full" },
 		BeforeBlock: func(c *Chain, p *ProposeCtx) {
@@ -98,13 +132,6 @@ func init() {
 					}
 					if p.AddExit(v) {
 						c.Vars["exits_done"]++
-					}
-				}
-			}
-			if p.Epoch >= ee+1 {
-				for i := range p.Flats {
-					if c.Vars[fmt.Sprintf("lazy%d", i)] == 1 {
-						c.Absent[common.ValidatorIndex(i)] = true
 					}
 				}
 			}
